@@ -159,16 +159,42 @@ func c20TableFinish(nt *nodetable.NodeTable, in *c20Input, sink *CaseSink, coqOp
 func c20RunList(db *nitro.Nitro, sl *skiplist.Skiplist, in *c20Input, sink *CaseSink) {
 	nl := nitro.NewNodeList(nil)
 	ids := map[*skiplist.Node]int{}
+	byID := map[int]*skiplist.Node{}
 	type ent struct{ key, id int }
 	var ref []ent
 	var coqOps, coqObs []string
 	oracleBad := ""
+	// guard: the chain from the head (= the most recently added node still present) must hold exactly
+	// the reference's nodes; a stale Link may close a cycle, and Keys/Remove would never return
+	chainOK := func() bool {
+		if len(ref) == 0 {
+			return true
+		}
+		cnt := 0
+		for n := byID[ref[0].id]; n != nil; n = n.GetLink() {
+			cnt++
+			if cnt > len(ref) {
+				break
+			}
+		}
+		if cnt != len(ref) && oracleBad == "" {
+			oracleBad = fmt.Sprintf("the chain from the head holds %s nodes, the reference list %d (a removed node came back through a stale Link)", map[bool]string{true: "more than " + fmt.Sprint(len(ref)), false: fmt.Sprint(cnt)}[cnt > len(ref)], len(ref))
+		}
+		return cnt == len(ref)
+	}
 	for _, op := range in.Ops {
+		if !chainOK() {
+			break
+		}
 		switch op.Op {
 		case "a":
-			n := sl.NewNode(0)
-			n.SetItem(unsafe.Pointer(db.VerifNewItem([]byte{byte(op.Key)})))
-			ids[n] = op.ID
+			n := byID[op.ID] // a node that was removed earlier is added again as it is
+			if n == nil {
+				n = sl.NewNode(0)
+				n.SetItem(unsafe.Pointer(db.VerifNewItem([]byte{byte(op.Key)})))
+				ids[n] = op.ID
+				byID[op.ID] = n
+			}
 			nl.Add(n)
 			ref = append([]ent{{op.Key, op.ID}}, ref...)
 			coqOps = append(coqOps, fmt.Sprintf("LAdd %d %d", op.Key, op.ID))
@@ -226,13 +252,45 @@ func c20Gen(r *rand.Rand, nextID *int) *c20Input {
 		in := &c20Input{Kind: "list"}
 		n := 3 + r.Intn(30)
 		nk := 2 + r.Intn(5)
+		// the generator simulates the list to know which nodes were removed: an application moves
+		// nodes between lists, so a removed node (its Link still set) is added again later, also to a
+		// list that was drained meanwhile
+		type ent struct{ key, id int }
+		var sim, removed []ent
+		drain := r.Intn(3) == 0
 		for i := 0; i < n; i++ {
-			switch x := r.Intn(10); {
+			switch x := r.Intn(12); {
 			case x < 5:
 				*nextID++
-				in.Ops = append(in.Ops, c20Op{Op: "a", Key: r.Intn(nk), ID: *nextID})
+				k := r.Intn(nk)
+				in.Ops = append(in.Ops, c20Op{Op: "a", Key: k, ID: *nextID})
+				sim = append([]ent{{k, *nextID}}, sim...)
+			case x >= 10:
+				if drain && len(sim) > 0 && len(removed) > 0 {
+					// drain the list completely, then re-add a node that was removed from its middle
+					for len(sim) > 0 {
+						in.Ops = append(in.Ops, c20Op{Op: "r", Key: sim[0].key})
+						removed = append(removed, sim[0])
+						sim = sim[1:]
+					}
+				}
+				if len(removed) > 0 {
+					j := r.Intn(len(removed))
+					e := removed[j]
+					removed = append(removed[:j], removed[j+1:]...)
+					in.Ops = append(in.Ops, c20Op{Op: "a", Key: e.key, ID: e.id})
+					sim = append([]ent{e}, sim...)
+				}
 			case x < 8:
-				in.Ops = append(in.Ops, c20Op{Op: "r", Key: r.Intn(nk)})
+				k := r.Intn(nk)
+				in.Ops = append(in.Ops, c20Op{Op: "r", Key: k})
+				for j, e := range sim {
+					if e.key == k {
+						removed = append(removed, e)
+						sim = append(append([]ent{}, sim[:j]...), sim[j+1:]...)
+						break
+					}
+				}
 			default:
 				in.Ops = append(in.Ops, c20Op{Op: "k"})
 			}
